@@ -60,6 +60,9 @@ def rand_ops(rng, count, n, malformed):
             v += [3, d, s, c]
         else:
             order = rng.shuffle(list(range(cur)))[: rng.range(max(1, cur - 2), cur)]
+            if malformed and rng.below(3) == 0 and len(order) >= 2:
+                # not a permutation: a duplicate physical index or one beyond the symbol count
+                order[rng.below(len(order))] = rng.choice([order[0], count + rng.below(3)])
             v += [4, len(order)] + order
             cur = len(order)
     return v, cur
@@ -74,6 +77,19 @@ def slab_cases(rng, tier):
             malformed = rep == 2
             v, nread = rand_ops(rng, count, rng.range(5, 40), malformed)
             cs.append(C.Case("slab_replay", [t, count, nread, len(v)] + v + CG.rand_data(rng, count * t), tag="malformed" if malformed else "valid"))
+        # a reorder that is not a permutation, followed by paired operations through the affected logical indices:
+        # two logical indices on one physical symbol (the borrow would alias) / a physical index beyond the slab
+        count = rng.range(4, 8)
+        order = rng.shuffle(list(range(count)))
+        i, j = 0, 1 + rng.below(count - 1)
+        dup = list(order)
+        dup[j] = dup[i]
+        far = list(order)
+        far[j] = count + rng.below(3)
+        for bad in (dup, far):
+            for op in ([1, i, j], [1, j, i], [3, i, j, 7], [3, j, i, 7]):
+                v = [4, count] + bad + op
+                cs.append(C.Case("slab_replay", [t, count, 0, len(v)] + v + CG.rand_data(rng, count * t), tag="malformed"))
     return cs
 
 
